@@ -143,7 +143,8 @@ def consistent(defn):
 def vtimezone_lines(defn, with_tzid=True):
     lines = ["BEGIN:VTIMEZONE"]
     if with_tzid:
-        lines.append("TZID:" + defn["tzid"])
+        # the value of the TZID property is TEXT: commas, semicolons and backslashes are escaped
+        lines.append("TZID" + (";" + defn["tzid_param"] if defn.get("tzid_param") else "") + ":" + defn["tzid"].replace("\\", "\\\\").replace(",", "\\,").replace(";", "\\;"))
     lines += defn.get("extras", [])          # legal properties that say nothing about offsets
     for ob in defn["obs"]:
         lines.append("BEGIN:" + ob["kind"])
@@ -376,6 +377,9 @@ def gen_definition(rng, tzid, allow_inconsistent=False):
             if ob.get("name") and rng.random() < 0.8:
                 ob["lang"] = lang
         meta["tzname_language"] = True
+    if rng.random() < 0.06:
+        defn["tzid_param"] = "X-RICAL-TZSOURCE=TZINFO"     # as rical / Apple Calendar write the TZID property
+        meta["tzid_with_parameter"] = True
     if rng.random() < 0.4:
         # what real producers add: properties that must not influence the zone.  The revision stamp is the same in
         # every export of one producer, whatever the definition says (a truncated export, another rule set)
